@@ -378,6 +378,62 @@ func reference(c *harness.Ctx, old []op, o op) (string, string, error) {
 	return contents(d1), contents(d2), nil
 }
 
+// followUp is the operation applied, without any fault, after the faulted one: an interrupted or
+// failed save must not affect what later saves and deletes produce. It yields a document shorter
+// than the ones before it whenever it can.
+func followUp(old []op) op {
+	if len(old) > 0 {
+		return op{"delete", old[0].Name, ""}
+	}
+	return op{"save", "c0", "f=z"}
+}
+
+type followRef struct {
+	afterOld, afterNew string // contents after the follow-up when the faulted operation did not / did take effect
+	errOld, errNew     bool
+}
+
+func childError(out string) bool {
+	var rep struct {
+		Error string `json:"error"`
+	}
+	json.Unmarshal([]byte(strings.TrimSpace(out)), &rep)
+	return rep.Error != ""
+}
+
+func followReference(c *harness.Ctx, old []op, o, f op) (followRef, error) {
+	var fr followRef
+	d1, d2 := filepath.Join(c.Tmp, "fref-old"), filepath.Join(c.Tmp, "fref-new")
+	os.MkdirAll(d1, 0o755)
+	os.MkdirAll(d2, 0o755)
+	out, _, err := runChild(faultSpec{Dir: d1, Old: old, Op: f, LimitAt: -1}, nil)
+	if err != nil {
+		return fr, err
+	}
+	fr.afterOld, fr.errOld = contents(d1), childError(out)
+	out, _, err = runChild(faultSpec{Dir: d2, Old: append(append([]op{}, old...), o), Op: f, LimitAt: -1}, nil)
+	if err != nil {
+		return fr, err
+	}
+	fr.afterNew, fr.errNew = contents(d2), childError(out)
+	return fr, nil
+}
+
+// checkFollowUp applies f in dir (whose settings file currently reads got) and compares with the reference.
+func checkFollowUp(dir, got, oldC, newC string, fr followRef, f op) string {
+	out, _, err := runChild(faultSpec{Dir: dir, Op: f, LimitAt: -1}, nil)
+	if err != nil {
+		return fmt.Sprintf("the follow-up %s of %q crashed: %v", f.Kind, f.Name, err)
+	}
+	after, failed := contents(dir), childError(out)
+	okOld := got == oldC && after == fr.afterOld && failed == fr.errOld
+	okNew := got == newC && after == fr.afterNew && failed == fr.errNew
+	if okOld || okNew {
+		return ""
+	}
+	return fmt.Sprintf("the next operation (%s of %q, no fault) on the same settings file gave\n got: %q (error reported: %v)\nwant: %q (error: %v) [or, had the faulted operation taken effect, %q (error: %v)]\nfile before it: %q", f.Kind, f.Name, after, failed, fr.afterOld, fr.errOld, fr.afterNew, fr.errNew, got)
+}
+
 func max(a, b int) int {
 	if a > b {
 		return a
@@ -400,6 +456,11 @@ func runWriteFault(c *harness.Ctx) harness.Result {
 		return harness.Result{Verdict: harness.Inconclusive, Detail: "reference run: " + err.Error()}
 	}
 	res := harness.Result{NonTrivial: true, Sig: fmt.Sprint("wf", len(oldC), len(newC), c.Index), Sample: map[string]any{"old": oldC, "operation": o, "new": newC}}
+	fop := followUp(old)
+	fref, err := followReference(c, old, o, fop)
+	if err != nil {
+		return harness.Result{Verdict: harness.Inconclusive, Detail: "reference run: " + err.Error()}
+	}
 	// every byte position in thorough, a spread of positions in quick
 	limit := len(newC) + 8
 	var ks []int
@@ -445,6 +506,11 @@ func runWriteFault(c *harness.Ctx) harness.Result {
 			res.Detail = fmt.Sprintf("a write failure after %d bytes (RLIMIT_FSIZE) during %s of %q left the settings file in a state that is neither the previous nor the new contents:\n got: %q\n old: %q\n new: %q\n reported error: %q", k, o.Kind, o.Name, got, oldC, newC, rep.Error)
 			return res
 		}
+		if msg := checkFollowUp(dir, got, oldC, newC, fref, fop); msg != "" {
+			res.Verdict, res.Detail = harness.Violated, fmt.Sprintf("after a write failure at byte %d (RLIMIT_FSIZE) during %s of %q, %s", k, o.Kind, o.Name, msg)
+			return res
+		}
+		c.Stat("follow_up_operations", 1)
 		os.RemoveAll(dir)
 	}
 	return res
@@ -463,6 +529,11 @@ func runKill(c *harness.Ctx) harness.Result {
 		return harness.Result{Verdict: harness.Inconclusive, Detail: "reference run: " + err.Error()}
 	}
 	res := harness.Result{NonTrivial: true, Sig: fmt.Sprint("kill", len(oldC), len(newC), c.Index), Sample: map[string]any{"old": oldC, "operation": o, "new": newC}}
+	fop := followUp(old)
+	fref, err := followReference(c, old, o, fop)
+	if err != nil {
+		return harness.Result{Verdict: harness.Inconclusive, Detail: "reference run: " + err.Error()}
+	}
 	calls := "openat,open,creat,write,pwrite64,rename,renameat,renameat2,fsync,fdatasync,fchmod,fchmodat,close,unlink,unlinkat,ftruncate,truncate,mkdir,mkdirat,link,linkat"
 	// tracing pass: which syscalls does the operation make (in the locked main thread)?
 	tdir := filepath.Join(c.Tmp, "trace")
@@ -522,6 +593,12 @@ func runKill(c *harness.Ctx) harness.Result {
 			res.Detail = fmt.Sprintf("pprof killed just before syscall #%d of kind %s (%s) during %s of %q left the settings file neither old nor new:\n got: %q\n old: %q\n new: %q", p.ord, p.name, p.line, o.Kind, o.Name, got, oldC, newC)
 			return res
 		}
+		// the crash must not matter to the next (fault-free) operation either
+		if msg := checkFollowUp(dir, got, oldC, newC, fref, fop); msg != "" {
+			res.Verdict, res.Detail = harness.Violated, fmt.Sprintf("after pprof was killed just before syscall #%d of kind %s (%s) during %s of %q, %s", p.ord, p.name, p.line, o.Kind, o.Name, msg)
+			return res
+		}
+		c.Stat("follow_up_operations", 1)
 		os.RemoveAll(dir)
 	}
 	return res
